@@ -34,6 +34,146 @@ func checkC12Defaults(c *vkit.Ctx) {
 		c.Guard(i, func() { runC12Defaults(c, p, r, i) })
 	}
 	os.RemoveAll(filepath.Join(p.Root, "__snapshots__"))
+	m := c.N(60, 2000)
+	for j := 0; j < m; j++ {
+		i := 1000000 + j
+		if !c.Mine(i) {
+			continue
+		}
+		r := c.Rand("dirs", j)
+		c.Guard(i, func() { runC12CallerDirs(c, p, r, i) })
+	}
+}
+
+// runC12CallerDirs: Configs with the same options (relative Dir, or none) used by callers
+// that live in different directories - the test file, and a subtest body defined in a
+// non-test file of a sub-package. Where each call stores its snapshot must not depend on
+// which of them was made first: the same calls in two orders (each from a clean slate, each
+// in a fresh process) must create the same set of files, and a third process making the
+// calls in yet another order must pass them all.
+func runC12CallerDirs(c *vkit.Ctx, p *Program, r *rand.Rand, i int) {
+	wipe := func() {
+		for _, d := range []string{"", "util"} {
+			for _, n := range []string{"__snapshots__", "snaps_rel", "snaps_nested"} {
+				os.RemoveAll(filepath.Join(p.Root, d, n))
+			}
+		}
+	}
+	wipe()
+	defer wipe()
+	dir := []string{"", "snaps_rel", "snaps_nested/a"}[r.IntN(3)]
+	var calls []Call
+	nc := 2 + r.IntN(4)
+	for k := 0; k < nc; k++ {
+		api := []string{"snap", "json", "yaml", "ssnap", "sjson"}[r.IntN(5)]
+		cl := Call{API: api, Dir: dir, Tag: fmt.Sprint(k)}
+		if k == 0 || (k > 1 && r.IntN(2) == 0) {
+			cl.Via = "subpkg-body"
+		} else if r.IntN(3) == 0 {
+			cl.Via = "direct-nontest"
+		}
+		if r.IntN(3) == 0 {
+			cl.File = fmt.Sprintf("f%d", k)
+		}
+		switch api {
+		case "json", "sjson":
+			cl.Val = fmt.Sprintf(`{"k":%d}`, k)
+		case "yaml":
+			cl.Val = fmt.Sprintf("k: %d\n", k)
+		default:
+			cl.Val = fmt.Sprintf("call %d", k)
+		}
+		calls = append(calls, cl)
+	}
+	// standalone calls of one test share an ordinal sequence: keep their relative order and
+	// permute everything else around them
+	perm := func(rr *rand.Rand) []Call {
+		var multi, sa []Call
+		for _, cl := range calls {
+			if cl.Standalone() {
+				sa = append(sa, cl)
+			} else {
+				multi = append(multi, cl)
+			}
+		}
+		rr.Shuffle(len(multi), func(a, b int) { multi[a], multi[b] = multi[b], multi[a] })
+		out := make([]Call, 0, len(calls))
+		for len(multi)+len(sa) > 0 {
+			if len(sa) == 0 || (len(multi) > 0 && rr.IntN(2) == 0) {
+				out, multi = append(out, multi[0]), multi[1:]
+			} else {
+				out, sa = append(out, sa[0]), sa[1:]
+			}
+		}
+		return out
+	}
+	created := func(order []Call, ci bool) ([]string, *RunResult) {
+		scn := &Scenario{Nodes: map[string]*Node{"TestA": {Calls: order}}, Roots: []string{p.Root}, NoClean: true}
+		res := p.RunChild(RunOpt{PkgDir: "", Scenario: scn, CI: ci})
+		got := map[string]bool{}
+		for rel, e := range res.Final[p.Root] {
+			if _, was := res.Initial[p.Root][rel]; !was && e.Type == "f" {
+				got[rel] = true
+			}
+		}
+		return keysOf(got), res
+	}
+	vias := func(o []Call) []string {
+		out := make([]string, len(o))
+		for k, cl := range o {
+			out[k] = cl.API + ":" + cl.Via + ":" + cl.File
+		}
+		return out
+	}
+	// multi-entry calls of one test to one file are told apart by their ordinal, which follows
+	// the order: judge the SET of files, which does not
+	o1 := append([]Call(nil), calls...)
+	o2 := perm(r)
+	in := map[string]any{"part": "callers in several directories", "dir": dir, "order1": vias(o1), "order2": vias(o2)}
+	f1, res1 := created(o1, false)
+	if !res1.Complete {
+		c.Violate("run-did-not-complete", "", fmt.Sprint(res1.Err, res1.Stderr), in)
+		return
+	}
+	wipe()
+	f2, res2 := created(o2, false)
+	if !res2.Complete {
+		c.Violate("run-did-not-complete", "", fmt.Sprint(res2.Err, res2.Stderr), in)
+		return
+	}
+	if fmt.Sprint(f1) != fmt.Sprint(f2) {
+		c.Violate("location-depends-on-earlier-calls", "", fmt.Sprintf("Dir(%q): order %v created %v, order %v created %v", dir, vias(o1), f1, vias(o2), f2), in)
+		return
+	}
+	util := 0
+	for _, f := range f1 {
+		if strings.HasPrefix(f, "util/") {
+			util++
+		}
+	}
+	if util == 0 || util == len(f1) {
+		c.Count("caller_dir_cases_with_one_directory_only", 1)
+	}
+	// the files order 2 left behind replay (CI: nothing may be created, nothing fails)
+	f3, res3 := created(o2, true)
+	if res3.Complete {
+		if len(f3) > 0 {
+			c.Violate("location-depends-on-earlier-calls", "", fmt.Sprintf("Dir(%q): replaying order %v in a CI process created %v", dir, vias(o2), f3), in)
+			return
+		}
+		for _, e := range res3.Events {
+			if e.Ev == "sig" && e.Kind == "Error" {
+				c.Violate("caller-dirs-replay-failed", "", vkit.Clip(e.Text, 300), in)
+				return
+			}
+		}
+	}
+	c.Count("caller_dir_order_pairs", 1)
+	c.Count("caller_dir_calls", 3*len(calls))
+	c.Case(vkit.Hash("dirs", fmt.Sprint(in), i), true)
+	if i%13 == 0 {
+		c.Sample(map[string]any{"part": "callers in several directories (engine B)", "dir": dir, "order1": vias(o1), "order2": vias(o2), "created": f1})
+	}
 }
 
 func runC12Defaults(c *vkit.Ctx, p *Program, r *rand.Rand, i int) {
